@@ -1369,20 +1369,21 @@ func trackedKeyUnselected(in Input) bool {
 	return false
 }
 
-// sig: known-finding signature, computed from the INPUT only.
-// slice-model-last-keyless: an update whose Model is a slice with at least one keyed element and a
-// key-less LAST element: no key restriction is added at all (the scan leaves isZero describing the last
-// element), so every row matching the chain's other condition changes.
-func sig(in Input) string {
+// lastKeyless: the shape of the fixed finding slice-model-last-keyless (/repo commit 049875c): a slice
+// model with a keyed element and a key-less LAST element. Generated on purpose (stream slice-last-keyless).
+func lastKeyless(in Input) bool {
 	if n := len(in.ModelSlice); n > 0 && in.ModelSlice[n-1] == 0 {
 		for _, k := range in.ModelSlice {
 			if k != 0 {
-				return "slice-model-last-keyless"
+				return true
 			}
 		}
 	}
-	return ""
+	return false
 }
+
+// sig: no known finding is open for C10.
+func sig(in Input) string { return "" }
 
 func main() {
 	a := lib.ParseArgs()
@@ -1491,8 +1492,8 @@ func main() {
 		if out_stale {
 			kind = "stale-copy-narrow-select"
 		}
-		if sig(in) != "" {
-			kind = "known-shape"
+		if lastKeyless(in) {
+			kind = "slice-last-keyless"
 		}
 		add(kind, in)
 	}
